@@ -262,6 +262,9 @@ func load(T types.Type, addr *value) value {
 		}
 		return a
 	default:
+		if _, ok := (*addr).(gval); ok {
+			*addr = resolveG(*addr)
+		}
 		return *addr
 	}
 }
